@@ -205,7 +205,8 @@ UmaskReadback == << <<"umask">>, <<"umask", "-S">>, <<"sys_umask", "000">> >>
 RawValues(r) ==
   LET vs == Values(r) IN
   SelectSeq([i \in 1..Len(vs) |-> DStr(DMulAdd(DigitsOf(vs[i]), Scale(r), 0))],
-            LAMBDA x : DCmp(DigitsOf(x), DigitsOf(P.inf)) < 0) \o <<"777", Inf>>
+            LAMBDA x : DCmp(DigitsOf(x), DigitsOf(P.inf)) < 0)
+  \o (IF Sys = "real" /\ Floors(r) # <<>> THEN <<>> ELSE <<"777">>) \o <<Inf>>
 CallFan(r) ==
   << One(<<"getrlimit", r>>), One(<<"getrlimit", OtherOf(r)>>) >>
   \o Cross(RawValues(r), RawValues(r), LAMBDA s, h : One(<<"setrlimit", r, s, h>>))
